@@ -1,0 +1,48 @@
+//go:build verif
+// +build verif
+
+package sftp
+
+// Simulation hooks, only compiled with the "verif" build tag.
+//
+// A deterministic simulator may install simHook / simLockHook to decide which
+// goroutine proceeds at the marked sites. With no hook installed (the default)
+// every call returns immediately, so behaviour is unchanged.
+
+var (
+	simHook     func(site string, key uint64)
+	simLockHook func(site string, key uint64, try func() bool)
+)
+
+// simYield marks a point where the scheduler may hold back the calling goroutine.
+// (site, key) identifies the goroutine among those parked at the same time.
+func simYield(site string, key uint64) {
+	if h := simHook; h != nil {
+		h(site, key)
+	}
+}
+
+// simLock is called right before a File method takes f.mu. The scheduler holds
+// the caller back until a probe of the real mutex succeeds at a moment it chose,
+// so that a goroutine never blocks on the mutex itself while another one is
+// parked holding it.
+func (f *File) simLock(method uint64, write bool) {
+	h := simLockHook
+	if h == nil {
+		return
+	}
+	h("f.lock", method, func() bool {
+		if write {
+			if f.mu.TryLock() {
+				f.mu.Unlock()
+				return true
+			}
+			return false
+		}
+		if f.mu.TryRLock() {
+			f.mu.RUnlock()
+			return true
+		}
+		return false
+	})
+}
